@@ -203,7 +203,7 @@ def validate_trace(trace_path, module="TraceForest.tla", cfg="TraceForest.cfg", 
             dist += r["distinct"]
             for l in r["lines"]:
                 if l.startswith("REJECT "):
-                    j = json.loads(l[len("REJECT "):])
+                    j = parse_reject(l)
                     j["line"] = first + j["i"] - 1
                     rejects.append(j)
     rejects.sort(key=lambda j: (j["line"], j["prop"]))
@@ -245,12 +245,36 @@ def validate_trace_flat(trace_path, module, cfg, nshards=12, timeout=900, tag="f
             dist += r["distinct"]
             for l in r["lines"]:
                 if l.startswith("REJECT "):
-                    j = json.loads(l[len("REJECT "):])
+                    j = parse_reject(l)
                     j["line"] = first + j["i"] - 1
                     rejects.append(j)
     rejects.sort(key=lambda j: (j["line"], j["prop"]))
     shutil.rmtree(d, ignore_errors=True)
     return dict(events=n, rejects=rejects, states=gen, distinct=dist, lines=lines)
+
+
+def parse_reject(l):
+    """one REJECT line printed by a trace judge.  TLC's ToJson does not escape every character a string of the crate may
+    hold (control characters inside a projected value); such a line is still a rejection: keep its position, property
+    and operation and carry the rest as raw text."""
+    body = l[len("REJECT "):]
+    try:
+        return json.loads(body)
+    except ValueError:
+        pass
+    try:
+        return json.loads(body, strict=False)
+    except ValueError:
+        pass
+    import re
+    mi = re.search(r'"i":\s*(\d+)', body)
+    mp = re.search(r'"prop":\s*"([A-Za-z0-9]+)"', body)
+    mo = re.search(r'"op":\s*"([^"]*)"', body)
+    mk = re.search(r'"known":\s*"([^"]*)"', body)
+    if not (mi and mp):
+        raise ToolError("unreadable REJECT line from TLC: " + body[:300])
+    return {"i": int(mi.group(1)), "prop": mp.group(1), "op": mo.group(1) if mo else "", "a": [], "res": "",
+            "detail": ["(detail not valid JSON; raw)", body[:600]], "known": mk.group(1) if mk else ""}
 
 
 def buildfail(out_path, prop, violations, known, tag):
